@@ -52,6 +52,19 @@ def gen_case(rs, tier):
     shared_cons = [c for c in cons if c["kind"] != "exclude"]
     all_ids = [f["id"] for f in factors]
     blocks = []
+    # operand blocks that several combinators may share AS OBJECTS (a "bid" maps to one Python block per pool): an outer and
+    # an inner CrossBlock for Nest, also usable under Repeat and Merge
+    aux = {}
+    if len(basic_ids) >= 2:
+        o, i = basic_ids[0], basic_ids[1]
+        for tag, fid in (("O", o), ("I", i)):
+            cs_x = [dast.clone(c) for c in cons if c["target"][0] == fid and hrng.random() < 0.5 and c["kind"] != "exclude"]
+            if hrng.random() < 0.5:
+                cs_x.append({"id": "mt" + tag, "kind": "mintrials", "n": hrng.choice([3, 4, 6])})
+            aux[tag] = {"kind": "cross", "bid": tag, "design": [fid], "crossing": [fid], "constraints": cs_x, "rcc": True}
+        # a second inner block of another length: the same outer block nested around inner runs of different lengths
+        aux["I2"] = {"kind": "cross", "bid": "I2", "design": [i], "crossing": [i],
+                     "constraints": [{"id": "mtI2", "kind": "mintrials", "n": len(factors[1]["levels"]) + hrng.choice([1, 2, 3])}], "rcc": True}
     for bi in range(hrng.randint(2, 5)):
         crossing = hrng.sample(basic_ids, hrng.randint(1, len(basic_ids)))
         if len(factors) > nf and hrng.random() < 0.3:
@@ -59,24 +72,57 @@ def gen_case(rs, tier):
         design = list(all_ids)
         cs = [c for c in cons if hrng.random() < 0.6]
         rcc = not any(c["kind"] == "exclude" for c in cs)
-        b = {"kind": "cross", "design": design, "crossing": crossing, "constraints": [dast.clone(c) for c in cs], "rcc": rcc}
+        b = {"kind": "cross", "bid": "B%d" % bi, "design": design, "crossing": crossing, "constraints": [dast.clone(c) for c in cs], "rcc": rcc}
+        earlier = [x for x in blocks if x["kind"] == "cross"]
         shape = hrng.random()
-        if shape < 0.25:
+        if shape < 0.22:
             size = 1
-            b = {"kind": "repeat", "block": b, "constraints": [{"id": "m%d" % bi, "kind": "mintrials", "n": hrng.choice([4, 6])}] +
+            r = hrng.random()
+            inner_b = b if r < 0.4 or not (earlier or aux) else (dast.clone(hrng.choice(earlier)) if earlier and r < 0.65 else dast.clone(aux[hrng.choice(sorted(aux))]) if aux else b)
+            b = {"kind": "repeat", "block": inner_b, "constraints": [{"id": "m%d" % bi, "kind": "mintrials", "n": hrng.choice([4, 6])}] +
                  ([dast.clone(hrng.choice(shared_cons))] if shared_cons and hrng.random() < 0.4 else [])}
-        elif shape < 0.35 and len(basic_ids) >= 2:
-            o, i = basic_ids[0], basic_ids[1]
-            cs_o = [dast.clone(c) for c in cons if c["target"][0] == o and hrng.random() < 0.5 and c["kind"] != "exclude"]
-            cs_i = [dast.clone(c) for c in cons if c["target"][0] == i and hrng.random() < 0.5 and c["kind"] != "exclude"]
-            b = {"kind": "nest", "outer": {"kind": "cross", "design": [o], "crossing": [o], "constraints": cs_o, "rcc": True},
-                 "inner": {"kind": "cross", "design": [i], "crossing": [i], "constraints": cs_i, "rcc": True}, "constraints": [], "alignment": None}
+        elif shape < 0.50 and len(basic_ids) >= 2:
+            b = {"kind": "nest", "outer": dast.clone(aux["O"]), "inner": dast.clone(aux[hrng.choice(["I", "I", "I2"])]), "constraints": [], "alignment": None}
+        elif shape < 0.62 and len(basic_ids) >= 2:
+            # Merge of two CrossBlocks over the same design; the shared constraint objects sit in either operand or on the Merge
+            other = [x for x in basic_ids if x not in crossing[:1]] or basic_ids
+            b2 = dast.clone(hrng.choice(earlier)) if earlier and hrng.random() < 0.3 else {"kind": "cross", "bid": "B%db" % bi, "design": design, "crossing": [hrng.choice(other)],
+                  "constraints": [dast.clone(c) for c in shared_cons if hrng.random() < 0.4], "rcc": True}
+            b["constraints"] = [c for c in b["constraints"] if c["kind"] != "exclude"]
+            b["rcc"] = True
+            if any(c["kind"] == "exclude" for c in b2["constraints"]):
+                b2 = dast.clone(b2)
+                b2.pop("bid", None)
+                b2["constraints"] = [c for c in b2["constraints"] if c["kind"] != "exclude"]
+                b2["rcc"] = True
+            b = {"kind": "merge", "blocks": [b, b2], "constraints": [dast.clone(c) for c in shared_cons if hrng.random() < 0.3],
+                 "mode": hrng.choice(["repeat", "weight"]), "alignment": None}
+        elif shape < 0.70 and len(basic_ids) >= 2:
+            cr2 = [hrng.choice(basic_ids)]
+            b = {"kind": "multicross", "design": design, "crossings": [crossing, cr2] if cr2 != crossing else [crossing, [basic_ids[0]] if crossing != [basic_ids[0]] else [basic_ids[1]]],
+                 "constraints": [c for c in b["constraints"] if c["kind"] != "exclude"], "rcc": True,
+                 "mode": hrng.choice(["repeat", "weight"]), "alignment": hrng.choice(["post preamble", "parallel start"])}
         blocks.append(b)
     order = list(range(len(blocks)))
     hrng.shuffle(order)
     knobs = common.draw_knobs(krng, transports=("lib",))
+    # blocks that share an operand block object with another block are the interesting ones: query them first
+    def shares(i):
+        mine = set(x.get("bid") for x in dast.iter_blocks(blocks[i])) - {None}
+        return any(mine & (set(x.get("bid") for x in dast.iter_blocks(blocks[j])) - {None}) for j in range(len(blocks)) if j != i)
+    cand_q = [i for i in order if hrng.random() < 0.8] or order[:1]
+    cand_q.sort(key=lambda i: 0 if shares(i) else 1)
+    queries = cand_q[:3 if tier == "quick" else 5]
+    # interleaving: some blocks are also queried right after they are built, i.e. before the later constructors run
+    # (a synthesis between two constructor calls is part of the history too), and queried again at the end
+    early = [i for i in queries if hrng.random() < 0.35]
+    faults = []
+    if hrng.random() < 0.12:
+        import math
+        # the user interrupts one constructor call at an arbitrary line; the shared objects stay in the pool
+        faults.append({"kind": "abort@line", "block": hrng.choice(order), "at": int(math.exp(hrng.uniform(0, math.log(30000))))})
     return {"factors": factors, "blocks": blocks, "order": order, "knobs": knobs, "tier": tier,
-            "queries": ([i for i in order if hrng.random() < 0.8] or order[:1])[:2 if tier == "quick" else 4]}
+            "queries": queries, "early": early, "faults": faults}
 
 
 def key(e):
@@ -103,60 +149,57 @@ def perturb(e, rng):
 
 def run_case(case):
     import sweetpea as sp
+    from ..smworld import SimAbort
     tier = case.get("tier", "quick")
-    cap = 60 if tier == "quick" else 1500
+    cap = 40 if tier == "quick" else 1500
     pool_ast = {"factors": case["factors"], "block": None}
-    shared_results = {}
+    aborts = {f["block"]: f["at"] for f in (case.get("faults") or []) if f["kind"] == "abort@line"}
     with W.SimWorld(case["run_seed"], case["knobs"]) as w:
         bld = build.Builder(pool_ast)
         built = {}
+        aborted = set()
         log = []
-        for bi in case["order"]:
-            b = case["blocks"][bi]
-            try:
-                with common.time_limit(5):
-                    built[bi] = bld.block(b)
-                log.append("build%d:%s" % (bi, b["kind"]))
-            except common.InnerTimeout:
-                return {"outcome": "skip", "reason": "timeout"}
-            except Exception as e:   # noqa
-                built[bi] = None
-                log.append("build%d:refused(%s)" % (bi, type(e).__name__))
-        compared = 0
+        st = {"compared": 0}
         viols = []
         prng = w.stream("perturb")
-        for bi in case["queries"]:
+
+        def compare(bi, stage):
             blk = built.get(bi)
             b = case["blocks"][bi]
+            if bi in aborted:
+                return
             # fresh twin: same expression, new objects, built alone
             try:
                 fresh = build.Builder(pool_ast).block(b)
             except Exception as e:   # noqa
                 if blk is not None:
                     viols.append(("C18/constructor-outcome-differs/shared-accepts", "block %d built from shared objects but refused from fresh ones (%s)" % (bi, type(e).__name__)))
-                continue
+                return
             if blk is None:
                 viols.append(("C18/constructor-outcome-differs/fresh-accepts/" + b["kind"],
                               "block %d (%s) is refused when built from shared objects (%s) but accepted from fresh ones ; history=%s" % (bi, dast.describe({"factors": case["factors"], "block": b}), [l for l in log if l.startswith("build%d" % bi)], log)))
-                continue
+                return
+            # the cheapest observable first: it needs no solver and cannot be lost to a size cap
+            if blk.trials_per_sample() != fresh.trials_per_sample():
+                viols.append(("C18/trial-count-differs/" + b["kind"], "block %d (%s): %d trials when built from shared objects after %s, %d from fresh objects" % (
+                    bi, dast.describe({"factors": case["factors"], "block": b}), blk.trials_per_sample(), log, fresh.trials_per_sample())))
+                return
             try:
                 with common.time_limit(6):
                     rs_, e1 = exhaust(w, blk, cap)
                     rf_, e2 = exhaust(w, fresh, cap)
             except (common.InnerTimeout, W.HarnessCap):
-                continue
+                log.append("query%d@%s:cap" % (bi, stage))
+                return
+            log.append("query%d@%s" % (bi, stage))
             if e1 is not None or e2 is not None:
                 if (e1 is None) != (e2 is None):
                     viols.append(("C18/synthesis-outcome-differs", "block %d: shared %r fresh %r" % (bi, type(e1).__name__ if e1 else None, type(e2).__name__ if e2 else None)))
-                continue
+                return
             if len(rs_) > cap or len(rf_) > cap:
-                continue
+                return
             S, F = Counter(key(e) for e in rs_), Counter(key(e) for e in rf_)
-            compared += max(len(rs_), len(rf_)) >= 2
-            shared_kinds = sorted(set(c["kind"] for _, c in dast.iter_constraints(b)))
-            if blk.trials_per_sample() != fresh.trials_per_sample():
-                viols.append(("C18/trial-count-differs/" + b["kind"], "block %d: shared %d fresh %d" % (bi, blk.trials_per_sample(), fresh.trials_per_sample())))
-                continue
+            st["compared"] += max(len(rs_), len(rf_)) >= 2
             if S != F:
                 only_s = sorted(set(S) - set(F))
                 only_f = sorted(set(F) - set(S))
@@ -165,7 +208,7 @@ def run_case(case):
                               "block %d (%s): %d solutions when built from shared objects after %s, %d from fresh objects; e.g. only-shared %s only-fresh %s" % (
                                   bi, dast.describe({"factors": case["factors"], "block": b}), sum(S.values()), log, sum(F.values()),
                                   json.dumps(dict(only_s[0]))[:200] if only_s else None, json.dumps(dict(only_f[0]))[:200] if only_f else None)))
-                continue
+                return
             # mismatch verdicts on the twin's sequences and on perturbed ones
             for e in rf_[:4]:
                 for cand in (e, perturb(e, prng)):
@@ -177,13 +220,35 @@ def run_case(case):
                     if sorted(ms.keys()) != sorted(mf.keys()):
                         viols.append(("C18/mismatch-verdict-differs/" + b["kind"],
                                       "block %d: shared verdict %r, fresh verdict %r for %s" % (bi, sorted(ms.keys()), sorted(mf.keys()), json.dumps(cand)[:200])))
-                        break
-        nshared = sum(1 for b in case["blocks"] for _ in dast.iter_constraints(b))
-        base = common.result_base(w, key=str((tuple(case["blocks"][i]["kind"] for i in case["order"]), tuple(sorted(set(c["kind"] for b in case["blocks"] for _, c in dast.iter_constraints(b)))))),
+                        return
+
+        for bi in case["order"]:
+            b = case["blocks"][bi]
+            try:
+                with common.time_limit(5), common.LineAbort(w, aborts.get(bi)):
+                    built[bi] = bld.block(b)
+                log.append("build%d:%s" % (bi, b["kind"]))
+            except common.InnerTimeout:
+                return {"outcome": "skip", "reason": "timeout"}
+            except SimAbort:
+                # the half-built block is dropped; Builder caches of constraint/factor objects stay (they are the shared pool)
+                built[bi] = None
+                aborted.add(bi)
+                log.append("build%d:aborted" % bi)
+            except Exception as e:   # noqa
+                built[bi] = None
+                log.append("build%d:refused(%s)" % (bi, type(e).__name__))
+            if bi in case.get("early", []):
+                compare(bi, "early")
+        for bi in case["queries"]:
+            compare(bi, "end")
+        compared = st["compared"]
+        after_fault = bool(aborted)
+        base = common.result_base(w, key=str((tuple(case["blocks"][i]["kind"] for i in case["order"]), tuple(sorted(set(c["kind"] for b in case["blocks"] for _, c in dast.iter_constraints(b)))), len(case.get("early", [])))),
                                   nontrivial=compared >= 1 and len([b for b in built.values() if b is not None]) >= 2,
                                   summary={"factors": [dast.describe({"factors": case["factors"], "block": {"kind": "cross", "design": [], "crossing": [], "constraints": []}})[:120]],
                                            "blocks": [dast.describe({"factors": case["factors"], "block": b})[-160:] for b in case["blocks"]],
-                                           "history": log, "queries": case["queries"]})
+                                           "history": log, "queries": case["queries"], "early": case.get("early"), "faults": case.get("faults")})
         viol = common.pick_violation(PROP, viols)
         if viol:
             base.update(outcome="violation", signature=viol[0], detail=viol[1])
@@ -194,6 +259,14 @@ def run_case(case):
 
 def ids_consistent(blocks):
     seen = {}
+    for top in blocks:
+        for b in dast.iter_blocks(top):
+            bid = b.get("bid")
+            if bid is None:
+                continue
+            if bid in seen and seen[bid] != dast.canon(b):
+                return False
+            seen[bid] = dast.canon(b)
     for b in blocks:
         for _, c in dast.iter_constraints(b):
             cid = c.get("id")
@@ -220,6 +293,8 @@ def _shrink_candidates(case):
             remap = {old: new for new, old in enumerate([j for j in range(n) if j != i])}
             c["order"] = [remap[j] for j in case["order"] if j != i]
             c["queries"] = [remap[j] for j in case["queries"] if j != i]
+            c["early"] = [remap[j] for j in case.get("early", []) if j != i]
+            c["faults"] = [dict(f, block=remap[f["block"]]) for f in (case.get("faults") or []) if f.get("block") != i]
             if c["queries"]:
                 yield c
     for bi, b in enumerate(case["blocks"]):
@@ -234,4 +309,13 @@ def _shrink_candidates(case):
         for q in case["queries"]:
             c = dict(case)
             c["queries"] = [q]
+            c["early"] = [x for x in case.get("early", []) if x == q]
             yield c
+    if case.get("early"):
+        c = dict(case)
+        c["early"] = []
+        yield c
+    if case.get("faults"):
+        c = dict(case)
+        c["faults"] = []
+        yield c
